@@ -36,7 +36,7 @@ def approx(got, want, tol):
 
 def check_welford(tr, hist, exact, where):
     n = len(hist)
-    hx = [F(v) if not isinstance(v, float) else F(float(v)) for v in hist]
+    hx = [F(int(v)) if isinstance(v, np.integer) else (F(v) if not isinstance(v, float) else F(float(v))) for v in hist]
     m, v = mean_stat(hx), var_stat(hx)
     if tr.N != n:
         bad('welford-N', f"{where}: N={tr.N} after {n} updates")
@@ -58,7 +58,7 @@ def check_welford(tr, hist, exact, where):
 
 def check_es(tr, hist, alpha, exact, where):
     n = len(hist)
-    hx = [F(v) if not isinstance(v, float) else F(float(v)) for v in hist]
+    hx = [F(int(v)) if isinstance(v, np.integer) else (F(v) if not isinstance(v, float) else F(float(v))) for v in hist]
     want = es_stat(hx, F(alpha))
     if tr.N != n:
         bad('es-N', f"{where}: N={tr.N} after {n} updates")
@@ -153,13 +153,18 @@ def plan(tier):
              ('welford', (ALPHA_B, ident, False, 'int large-mean'), L - 1),
              ('welford', (ALPHA_A, float, False, 'float'), L - 1), ('welford', (ALPHA_A, np.float64, False, 'np.float64'), L - 1),
              ('welford', ([-2, 0, 1, 3, 7], ident, False, 'int'), L - 1),
-             ('welford', (ALPHA_B, float, False, 'float large-mean'), L - 1)]
+             ('welford', (ALPHA_B, float, False, 'float large-mean'), L - 1),
+             ('welford', ([5, 3, 250, 0, 17], np.uint8, False, 'np.uint8'), L - 1),
+             ('welford', ([100, -100, 50, -3], np.int8, False, 'np.int8'), L - 1),
+             ('welford', ([60000, 2, 30000], np.uint16, False, 'np.uint16'), L - 1)]
     for a in ALPHAS:
         tasks.append(('es', (a, ALPHA_A, ident, True, 'Fraction'), L))
         tasks.append(('es', (a, ALPHA_A, float, False, 'float'), L - 1))
         tasks.append(('lin-es', a, 2 if tier != 'thorough' else 3))
     tasks.append(('es', (F(1, 4), [F(v) for v in ALPHA_B], ident, True, 'Fraction large-mean'), L - 1))
     tasks.append(('es', (F(1, 4), ALPHA_A, np.float64, False, 'np.float64'), L - 1))
+    tasks.append(('es', (F(1, 4), [5, 3, 250, 0], np.uint8, False, 'np.uint8'), L - 1))
+    tasks.append(('es', (F(1, 2), [100, -100, 50], np.int8, False, 'np.int8'), L - 1))
     tasks.append(('lin-welford', None, 2 if tier != 'thorough' else 3))
     return tasks
 
